@@ -31,8 +31,8 @@ func (e *Engine) Describe(prop string) sim.PropInfo {
 	return sim.PropInfo{Level: "fault_enumeration",
 		Rule: "2-3 simulated processes (pids owned by the simulator) on one repository: generated orders of open / use (edit+commit) / close / kill, a kill being placed at EVERY storage mutation index inside open, inside use and inside close (file-system calls on .git/git-bug included, with torn variants of the lock-file write: nothing / all / first byte), interleaved with commands of the real cobra tree (every leaf discovered at run time except the interactive ones) run in-process as simulated processes with valid and invalid arguments, with and without a configured user; evaluations = actions judged; non-trivial = run in which a process was refused or killed; distinct = distinct event-log hash",
 		Kinds: []string{"second-open-accepted", "refusal-without-holder", "refusal-changed-state", "live-lock-removed", "open-failed-after-close", "open-failed-after-death", "lock-left-by-command", "panic"},
-		Real:  []string{"cache.NewRepoCache / Close lock protocol", "commands (cobra tree, in-process)", "commands/execenv loaders", "repository.GoGitRepo on tmpfs"},
-		Stub:  []string{"operating-system processes: simulated (pid table in the simulator, os.Getpid and process.IsRunning rewritten by R-pid)", "process death: I/O freeze of that process's handle at a chosen mutation", "SIGINT-driven cleanup (util/interrupt) is not simulated"},
+		Real:  []string{"cache.NewRepoCache / Close lock protocol", "util/process.IsRunning against real operating-system processes, in the runs (one in eight) whose simulated processes carry the pids of real idle children; a kill there is SIGKILL and a reap", "commands (cobra tree, in-process)", "commands/execenv loaders", "repository.GoGitRepo on tmpfs"},
+		Stub:  []string{"operating-system processes: simulated (pid table in the simulator, os.Getpid and process.IsRunning rewritten by R-pid; in seven runs of eight liveness is answered by the table, in one by git-bug's own process.IsRunning)", "process death: I/O freeze of that process's handle at a chosen mutation", "SIGINT-driven cleanup (util/interrupt) is not simulated"},
 		Assumptions: []string{
 			"two opens are not interleaved inside the availability check (the code documents that race as out of scope); processes act one after the other",
 			"a refusal may report the holder's pid in any wording as long as the number appears in the error",
@@ -56,6 +56,9 @@ func (e *Engine) Generate(prop, tier string, seed uint64, run int) *sim.Plan {
 	np := r.Range(2, 3)
 	p.Cfg["procs"] = np
 	p.Cfg["user"] = !r.Chance(0.3) // some repositories have no user identity configured
+	// one run in eight: every simulated process carries the pid of a real idle child, and liveness
+	// is answered by git-bug's own util/process.IsRunning (a stream of its own: the plans stay as they were)
+	p.Cfg["real_pids"] = sim.NewRand(sim.Mix(rs, 0x51D)).Chance(0.125)
 	n := r.Range(6, 18)
 	if tier == "thorough" {
 		n = r.Range(10, 40)
@@ -238,6 +241,7 @@ func (e *Engine) Execute(p *sim.Plan, keepLog bool) (res *sim.RunResult) {
 	res = &sim.RunResult{}
 	w := sim.NewWorld(p.RunSeed, keepLog)
 	defer w.Close()
+	w.RealPids = p.CfgBool("real_pids")
 	x := &exec{p: p, w: w, res: res, viol: map[string]bool{}}
 	defer func() {
 		if r := recover(); r != nil {
